@@ -352,6 +352,8 @@ class Execution:
                 ev = self.rec("api", t=tname, n=self.api_n, n_inv=api_in_inv, op=pl["op"], token=kw.get("CheckpointToken"),
                               marker=kw.get("Marker"), updates=updates, msg_n=n,
                               sizes=[len(str(u.get("Payload") or "")) for u in updates])
+                if outcome is not None:
+                    ev["after_return"] = True
                 if do_kill and crash.get("mode", "before") == "before":
                     ev["lost"] = "request"
                     ev["killed"] = True
@@ -437,6 +439,8 @@ class Execution:
             path = pl.get("path")
             ev = self.rec(kind, t=tname, msg_n=n, **pl)
             self.enrich(ev, path)
+            if outcome is not None:
+                ev["after_return"] = True  # the handler has already returned; threads it left behind are still running (linger)
             if do_kill:
                 ev["killed"] = True
                 if kind == "fn_enter":
@@ -461,6 +465,8 @@ class Execution:
                 return
             if kind == "inv_end":
                 outcome = pl
+                oc = pl.get("outcome") or {}
+                self.rec("returned", t=tname, outcome_kind=oc.get("kind"), status=(oc.get("value") or {}).get("Status") if isinstance(oc.get("value"), dict) else None)
                 respond(mid, True)
                 return
             respond(mid, True)
